@@ -2,40 +2,41 @@
 
 theorem layer : coq/theories/props/C14.v (model res/Own.v: the ownership automaton of
                 environment.rs — resource_ownership, handle_effect_request, handle_effect_completion,
-                transfer_resource_ownership, handle_spawn/handle_deliver, cleanup_process_resources,
-                handle_process_results — with the EffectBackend as a logged oracle)
+                give_resources / transfer_resource_ownership, handle_spawn/handle_deliver,
+                watch_resource_owner, cleanup_process_resources on ProcessResults and on
+                ProcessTerminated — with the EffectBackend as a logged oracle)
 correspondence: generated Quiver programs (<= 4 processes, <= 3 resources; handles passed bare, nested in
                 tuples, inside closures, as spawn captures / arguments, as process results; left unread in
-                mailboxes; owners awaited or not; uses after transfer) run by harness qv_own on the REAL
-                Environment + 1..3 real Workers under several seeded schedules each (one environment
+                mailboxes; owners awaited or not; uses and re-sends after transfer) run by harness qv_own on
+                the REAL Environment + 1..3 real Workers under several seeded schedules each (one environment
                 event per step, partial command visibility, instruction quantum 1..1000, async
                 completions released by the scheduler).  After EVERY environment step the real backend
-                calls and the real `Environment::verif_dump().resource_ownership` are compared with the
-                extracted model replaying the same events.
+                calls, the WatchProcess commands sent and the real
+                `Environment::verif_dump().resource_ownership` are compared with the extracted model
+                replaying the same events.
 impl oracle   : the property itself evaluated on the REAL log: owner check at every execute, denied use
-                makes no backend call and fails the process, transfer postcondition at any nesting depth,
-                ownership changes only by transfer/creation/cleanup, cleanup closes everything the reported
-                process owns, closed at most once, never closed while the owner is alive, every resource
-                of a terminated process closed at quiescence.  Confirmed defects are routed through
-                known_findings.json by narrow signatures (see KNOWN_* below).  F48 (a stale handle re-sent
-                after close was re-registered and closed twice) is repaired in /repo (e2fa5e7): a second
-                close, or a transfer that registers an absent id, is a violation again; its reproducer is
-                a must-pass probe in corpus/c14_programs.txt."""
+                makes no backend call and fails the process, a transfer moves exactly what its initiator
+                owns (at any nesting depth), ownership changes only by transfer/creation/cleanup, every new
+                owner is watched, cleanup closes everything the reported process owns, closed at most once,
+                never closed while the owner is alive, every resource of a terminated process — awaited or
+                not — closed at quiescence.  F10 (un-awaited owner never cleaned up), F48 (stale handle
+                re-registered, closed twice) and F49 (a non-owner's send moved ownership) are repaired in
+                /repo: they are violations again and their reproducers are must-pass probes in
+                corpus/c14_programs.txt.  F47 (an id absent from the map reaches the backend) stays a known
+                finding, routed by its narrow signature."""
 import hashlib, json, os
 from vplib import sexpr
 
 MANIFEST = dict(
     category="proof",
-    text="Coq theorems over every event sequence of a model of the environment's resource-ownership handlers (effect request with owner check, effect completion, recursive transfer through tuples and closures on send/spawn, cleanup on ProcessResults) with the effect backend as a logged oracle: the ownership map is a function; after a send/spawn carrying r at any nesting depth the owner is the recipient and nothing else changes; ownership changes only by transfer, creation or cleanup; every execute on a resource present in the map comes from its owner and a denied request makes no backend call; close_resource is called only from the cleanup of a terminated owner, for everything it owns, and at most once per resource (given a backend that never reuses ids); every resource of a reported process is closed — outside the classes refuted on the model AND reproduced on the real code (F10 un-awaited owner never cleaned up; F47 id absent from the map bypasses the owner check; F49 a non-owner's send moves ownership). Validated, not proved: that the model is the code (step-by-step differential execution of the extracted model against the real Environment + Workers on generated programs and schedules, plus the property oracles evaluated on the real backend log).",
+    text="Coq theorems over every event sequence of a model of the environment's resource-ownership handlers (effect request with owner check, effect completion, owner-checked recursive transfer through tuples and closures on send/spawn, WatchProcess for every new owner, cleanup on ProcessResults and on ProcessTerminated) with the effect backend as a logged oracle: the ownership map is a function; a send/spawn moves exactly the resources it carries (at any nesting depth) that its sender/caller owns, to the recipient, and nothing else changes; a resource leaves its owner only by the owner's own transfer or cleanup; ownership changes only by transfer, creation or cleanup; every execute on a resource present in the map comes from its owner and a denied request makes no backend call; close_resource is called only from the cleanup of a terminated owner, for everything it owns, and at most once per resource (given a backend that never reuses ids); every owner is watched, hence in every quiescent state no terminated process — awaited or not — owns a resource. Excluded class, refuted on the model AND reproduced on the real code: F47 (an id absent from the map bypasses the owner check and reaches the backend). Validated, not proved: that the model is the code (step-by-step differential execution of the extracted model against the real Environment + Workers on generated programs and schedules, plus the property oracles evaluated on the real backend log).",
     design_ref="§5 C14",
-    note="Persistent (root/REPL) processes that sleep and are resumed are outside the model (the root is treated as alive unless it failed). What a backend does with a closed descriptor is outside (quiver-io not modelled; its ids are never reused, which is the freshness hypothesis of closed_at_most_once). DeliverAction carries no sender, so neither the code nor the model checks that a handle is sent by its owner (observation reported, not part of the theorems). Trusted: Coq kernel, extraction (ExtrOcamlBasic), OCaml driver, Rust harness (in-memory transports, scheduler, instrumented backend), Python generator/oracles.",
+    note="Persistent (root/REPL) processes that sleep and are resumed are outside the model (the root is treated as alive unless it failed). What a backend does with a closed descriptor is outside (quiver-io not modelled; its ids are never reused, which is the freshness hypothesis of closed_at_most_once). The boolean give_resources returns (whether to send WatchProcess) is specified in the model on the pre-state rather than accumulated along the traversal; the per-step comparison of the WatchProcess commands ties it to the code. That a worker answers every WatchProcess of a terminated process (worker.rs check_completed_processes) is the quiescence notion of the closed-after-termination theorem, observed by the harness, not modelled. Trusted: Coq kernel, extraction (ExtrOcamlBasic), OCaml driver, Rust harness (in-memory transports, scheduler, instrumented backend), Python generator/oracles.",
     technique="Coq proof on an ownership automaton + step-by-step model/code correspondence on a deterministic single-threaded simulation of the real Environment and Workers + property oracles on the real backend log",
 )
 
 # finding keys (ids assigned by the maintainer; signatures implemented in `oracle` below)
-KNOWN_UNAWAITED = "F10"          # resource owned at quiescence by a terminated process never reported / given after a report
 KNOWN_STALE_USE = "F47"          # execute on an id absent from resource_ownership
-KNOWN_FOREIGN_TRANSFER = "F49"   # send/spawn by a process that does not own the resource it carries
 
 HEADER = ("'h = \\TestRes, 'm = H['h] | T[['h, 'int]] | D[[['h, 'int], 'int]] | F[(#[] -> 'h)] "
           "| G[[(#[] -> 'h), 'int]] | P['h, 'h] | N['int]")
@@ -253,22 +254,21 @@ def norm_calls(calls):
 
 
 def oracle(run, stats):
-    """Evaluate C14 on the REAL trace of one run. Returns [(class, detail, finding_key|None)]."""
+    """Evaluate C14 on the REAL trace of one run. Returns ([(class, detail, finding_key|None)], classes)."""
     steps = section(run, "steps")
     end = section(run, "end")
     final = section(run, "final")
     status = {p: s for p, s in (section(["x"] + final, "status"))}
     problems = []
     own, term, closed = {}, set(), {}
-    reported = {}        # pid -> True once a ProcessResults listed it
-    given_after = set()  # (r, p): an event that can give r to p was handled after p was reported
+    awaited_report = set()   # pids listed by some ProcessResults
     denied = []
-    classes = dict(early=False, f47=False, f48=False, f49=False)
+    classes = {"early": False, "f47": False, "stale-transfer": False}
     for idx, st in enumerate(steps):
         if st[0] == "term":
             term.add(st[1])
             continue
-        ev, calls, own_after_l = st[1], st[2][1:], st[3][1:]
+        ev, calls, watches, own_after_l = st[1], st[2][1:], st[3][1:], st[4][1:]
         own_after = {}
         for r, p in own_after_l:
             if r in own_after:
@@ -281,27 +281,20 @@ def oracle(run, stats):
             vals = [ev[2]] if kind == "send" else ev[3]
             recipient = ev[1] if kind == "send" else ev[2]
             initiator = ev[3] if kind == "send" else ev[1]
-            if initiator == "?":
-                stats["sends_with_unknown_sender"] += 1
             carried = [x for v in vals for x in rids_in(v, 0 if kind == "send" else 1)]
-            # a send's message is itself the value: depth counted from the message constructor
             for r, d in carried:
                 stats["depths"][d] = stats["depths"].get(d, 0) + 1
                 explained.add(r)
-                if recipient in reported:
-                    given_after.add((r, recipient))
                 if r not in own:
-                    classes["f48"] = True
+                    classes["stale-transfer"] = True
                     stats["transfers_of_absent_id"] += 1
-                elif initiator != "?" and own[r] != initiator:
-                    classes["f49"] = True
+                elif own[r] != initiator:
                     stats["transfers_by_non_owner"] += 1
-                    problems.append(("transfer-by-non-owner", "%s: %s is carried by a %s of process %s but owned by %s" % (dump(ev), r, kind, initiator, own[r]), KNOWN_FOREIGN_TRANSFER))
-                # a registered resource moves to the recipient; an id that is not registered (stale
-                # handle: closed at its owner's cleanup) must stay unregistered (F48, repaired)
-                expect = recipient if r in own else None
+                # only its owner can give a resource away (F49, repaired); an id that is not
+                # registered stays unregistered (F48, repaired)
+                expect = recipient if own.get(r) == initiator else own.get(r)
                 if own_after.get(r) != expect:
-                    problems.append(("transfer-postcondition", "after %s owner of %s is %s, expected %s" % (dump(ev), r, own_after.get(r), expect), None))
+                    problems.append(("transfer-postcondition", "after %s (by %s) owner of %s is %s, expected %s (was %s)" % (dump(ev), initiator, r, own_after.get(r), expect, own.get(r)), None))
                 if recipient in term:
                     stats["transfers_to_terminated"] += 1
             if carried:
@@ -313,6 +306,7 @@ def oracle(run, stats):
                 denied.append(p)
                 if calls:
                     problems.append(("non-owner-reached-backend", "%s by %s while owner is %s made calls %s" % (dump(eff), p, own[eff[1]], dump(calls)), None))
+        reported_now = ev[2] if kind == "results" else [ev[1]] if kind == "terminated" else []
         for c in calls:
             if c[0] == "exec":
                 p, eff, ans = c[1], c[2], c[3]
@@ -326,8 +320,6 @@ def oracle(run, stats):
                         problems.append(("absent-id-reached-backend", "execute(%s, %s): id not in resource_ownership" % (p, dump(eff)), KNOWN_STALE_USE))
                 if ans[0] == "now" and isinstance(ans[1], list) and ans[1][0] == "res":
                     explained.add(ans[1][1])
-                    if p in reported:
-                        given_after.add((ans[1][1], p))
                     if own_after.get(ans[1][1]) != p:
                         problems.append(("creator-not-owner", "resource %s created for %s is owned by %s" % (ans[1][1], p, own_after.get(ans[1][1])), None))
                 if ans[0] == "async":
@@ -335,6 +327,8 @@ def oracle(run, stats):
             else:
                 r = c[1]
                 stats["closes"] += 1
+                if kind == "terminated":
+                    stats["closes_by_watch_report"] += 1
                 explained.add(r)
                 if closed.get(r):
                     problems.append(("closed-twice", "close_resource(%s) called again" % r, None))
@@ -344,55 +338,47 @@ def oracle(run, stats):
                     problems.append(("closed-without-owner", "close_resource(%s) for an id not in the map" % r, None))
                 elif o not in term:
                     problems.append(("closed-while-owner-alive", "close_resource(%s) while its owner %s has not terminated" % (r, o), None))
-                if kind != "results" or o not in ev[2]:
+                if o not in reported_now:
                     problems.append(("close-outside-cleanup", "close_resource(%s) during %s" % (r, dump(ev)), None))
         if kind == "complete" and isinstance(ev[2], list) and ev[2][0] == "res":
             explained.add(ev[2][1])
-            if ev[1] in reported:
-                given_after.add((ev[2][1], ev[1]))
             if own_after.get(ev[2][1]) != ev[1]:
                 problems.append(("creator-not-owner", "completion %s: owner is %s" % (dump(ev), own_after.get(ev[2][1])), None))
         if kind == "results":
-            for p in ev[2]:
-                reported[p] = True
-                if p not in term:
-                    classes["early"] = True
-                    problems.append(("reported-before-termination", "ProcessResults lists %s which has not terminated" % p, None))
-                left = [r for r, o in own_after.items() if o == p]
-                if left:
-                    problems.append(("cleanup-incomplete", "after %s process %s still owns %s" % (dump(ev), p, left), None))
-                for r, o in own.items():
-                    if o == p and ["close", r] not in [c for c in calls if c[0] == "close"]:
+            awaited_report.update(ev[2])
+        for p in reported_now:
+            if p not in term:
+                classes["early"] = True
+                problems.append(("reported-before-termination", "%s names %s which has not terminated" % (dump(ev), p), None))
+            left = [r for r, o in own_after.items() if o == p]
+            if left:
+                problems.append(("cleanup-incomplete", "after %s process %s still owns %s" % (dump(ev), p, left), None))
+            for r, o in own.items():
+                if o == p:
+                    if ["close", r] not in [c for c in calls if c[0] == "close"]:
                         problems.append(("cleanup-incomplete", "resource %s of reported process %s not closed" % (r, p), None))
-        # frame: ownership changes only by transfer / creation / cleanup
+                    elif kind == "terminated" and p not in awaited_report:
+                        stats["unawaited_owner"] = True
+        # frame: ownership changes only by transfer / creation / cleanup; a new owner is watched
         for r in set(own) | set(own_after):
             if own.get(r) != own_after.get(r):
                 if r not in explained:
                     problems.append(("unexplained-ownership-change", "%s: %s -> %s during %s" % (r, own.get(r), own_after.get(r), dump(ev)), None))
+                if own_after.get(r) is not None and own_after[r] not in watches:
+                    problems.append(("new-owner-not-watched", "%s becomes the owner of %s during %s but no WatchProcess is sent (watch %s)" % (own_after[r], r, dump(ev), dump(watches)), None))
         own = own_after
-    quiescent = end and end[0] == "quiescent"
-    f10 = {}
-    for r, p in own.items():
-        if p in term:
-            f10[(r, p)] = (p in reported, (r, p) in given_after)
-    if quiescent:
+    if end and end[0] == "quiescent":
         for r, p in own.items():
             if p in term:
-                never = p not in reported
-                late = (r, p) in given_after
                 stats["leaked_at_quiescence"] += 1
-                if never:
-                    stats["unawaited_owner"] = True
                 problems.append(("not-closed-after-termination",
-                                 "resource %s still owned by terminated process %s at quiescence (%s)" %
-                                 (r, p, "never reported" if never else "given after a report" if late else "REPORTED and not cleaned"),
-                                 KNOWN_UNAWAITED if (never or late) else None))
+                                 "resource %s still owned by terminated process %s at quiescence" % (r, p), None))
         for p in denied:
             if status.get(p) != "failed":
                 problems.append(("denied-use-did-not-fail", "process %s was denied but its final status is %s" % (p, status.get(p)), None))
     if section(["x"] + final, "mail"):
         stats["mailbox_leftover"] = True
-    return problems, classes, f10
+    return problems, classes
 
 
 def corpus(name):
@@ -427,7 +413,7 @@ def run(ctx):
             cases.append(case_line(src, rng.choice([1, 2, 2, 3]), rng.randrange(1 << 30), nsched))
             kinds.append("generated")
     stats = dict(events={}, depths={}, transfers=0, transfers_of_absent_id=0, transfers_to_terminated=0, denied_uses=0,
-                 transfers_by_non_owner=0, sends_with_unknown_sender=0,
+                 transfers_by_non_owner=0, closes_by_watch_report=0,
                  executes=0, closes=0, async_effects=0, leaked_at_quiescence=0)
     hist = dict(histories=0, compile_rejected=0, with_unawaited_owner=0, with_mailbox_leftover=0, with_denied_use=0,
                 with_absent_id_use=0, with_double_close=0,
@@ -482,7 +468,7 @@ def run(ctx):
                         if a[0] == "term":
                             if a != b:
                                 bad = "step %d" % i
-                        elif a[1] != b[1] or norm_calls(a[2][1:]) != norm_calls(b[2][1:]) or a[3] != b[3]:
+                        elif a[1] != b[1] or norm_calls(a[2][1:]) != norm_calls(b[2][1:]) or a[3] != b[3] or a[4] != b[4]:
                             bad = "step %d: real %s / model %s" % (i, dump(a), dump(b))
                         if bad:
                             break
@@ -493,14 +479,13 @@ def run(ctx):
             # ---- the property on the real log
             st_before = dict(stats)
             local = dict(stats, unawaited_owner=False, mailbox_leftover=False)
-            problems, classes, f10 = oracle(r, local)
-            # the checker's class signatures must be the Coq monitors' (res/Own.v KnownF47/F48/F49, f10_scan)
+            problems, classes = oracle(r, local)
+            # the checker's class signatures must be the Coq monitors' (res/Own.v early_reportb / KnownF47 / stale_transferb)
             if not bad:
                 try:
                     mc = {k: v == "true" for k, v in section(mm, "classes")}
-                    mf = {(x[0], x[1]): (x[2] == "true", x[3] == "true") for x in section(mm, "f10")}
-                    if any(mc[k] != classes[k] for k in classes) or not mc["fresh"] or mf != f10:
-                        bad = "known-class monitors: checker %s %s / Coq %s %s" % (classes, f10, mc, mf)
+                    if any(mc[k] != classes[k] for k in classes) or not mc["fresh"]:
+                        bad = "class monitors: checker %s / Coq %s" % (classes, mc)
                 except Exception as e:
                     bad = "model classes unparsable: %s" % e
             for k in stats:
@@ -511,13 +496,13 @@ def run(ctx):
                 flags.add("mailbox")
             if local["denied_uses"] > st_before["denied_uses"]:
                 flags.add("denied")
+            if local["transfers_by_non_owner"] > st_before["transfers_by_non_owner"]:
+                flags.add("foreign")
             for cls, detail, key in problems:
                 if cls == "absent-id-reached-backend":
                     flags.add("absent")
                 if cls == "closed-twice":
                     flags.add("double")
-                if cls == "transfer-by-non-owner":
-                    flags.add("foreign")
                 n = reported.get(cls, 0)
                 reported[cls] = n + 1
                 if n < 3:
